@@ -35,6 +35,7 @@ MODELLED = {
     "murmur": "twmb/murmur3 vs NutsModel/C19/Murmur.lean (tie of the concrete hash instance)",
     "slc.update": "vcr/revocation/statuslist2021_verifier.go update + validate (statuslist_total); Verify's per-entry loop is in the model (statuslist_total) but only sampled on the real code",
     "didkey": "vdr/didkey/resolver.go Resolve: checks between the DID string and the library calls (didkey_total)",
+    "didnuts.callback": "vdr/didnuts/ambassador.go handleNetworkEvent → callback: integrity checks, null-entry pre-check BEFORE json.Unmarshal into did.Document, validator, hand-over (ambassador_callback_total under the go-did contract, ambassador_callback_rejects); the REAL subscriber is called with a stub store",
     "callback": "auth/api/iam/openid4vp.go withCallbackURI and validatePresentationNonce's nonces[0] inside handleAuthorizeResponseSubmission (callback_total_in_handler; the stand-alone withCallbackURI is partial)",
 }
 # modelled ops whose panic outcome is NOT a property violation by itself: the function is called directly by the harness with
@@ -47,6 +48,9 @@ REQUIRED = [
     "iblt_bucket_indices_total", "iblt_bucket_indices_exact", "iblt_insert_delete_total", "iblt_decode_terminates", "iblt_decode_fuel_irrelevant", "iblt_decode_total",
     "iblt_handle_set_total", "iblt_zero_buckets_never_divide", "murmur_chain_short_cycles", "iblt_unbounded_chain_hangs",
     "iblt_small_table_hangs_unfixed", "callback_total_in_handler", "callback_empty_envelope_needs_guard", "statuslist_total", "statuslist_guards_needed", "didkey_total", "callback_standalone_partial", "panic_sites_accounted",
+    "fact_doc_unmarshal_guarded", "ambassador_callback_total", "ambassador_callback_rejects", "ambassador_null_guard_needed",
+    "fact_didweb", "didweb_percent_decode_total", "didweb_percent_decode_guard_needed", "didweb_percent_decode_length", "didweb_percent_decode_only_allowed",
+    "didweb_path_unescape_plain", "didweb_did_to_url_total", "didweb_did_to_url_ok", "didweb_resolve_total", "didweb_resolve_ok", "didweb_null_guard_needed",
     "model_panics_only_at_listed_sites", "fact_cfg_is_fixed", "fact_constants", "fact_http_clients_have_timeout", "iblt_decode_pass_bound", "dpop_parse_ok_claims_are_strings",
 ]
 
